@@ -31,7 +31,7 @@ LEVEL_TEXT = ("Generated-input search (Hypothesis, seeded, sharded) plus "
 LEVEL_NOTE = ("float64; SER of QAM and all PER/SE values are judged with an "
               "absolute floor (1e-13, resp. 1e-13*L) because 1-(1-x)^n "
               "cancels below 1e-16; PSK exact SER by scipy.integrate.quad "
-              "(rel 1e-10)")
+              "(epsrel 1e-11)")
 TECHNIQUE = ("property-based testing (Hypothesis): reference-model oracle "
              "from the emitted constellation + algebraic relations")
 ASSUMPTIONS = [
@@ -45,8 +45,9 @@ ASSUMPTIONS = [
     "1-(1-Psc)^2, which cancels below 1e-16)",
     "PER/SE equality: absolute tolerance 1e-13*L (L = packet length; "
     "(1-BER)^L amplifies the rounding of 1-BER L times)",
-    "ordering relations (range, monotonicity, BER<=SER<=k*BER, PSK bracket) "
-    "carry a slack of 1e-13 absolute + 1e-9 relative",
+    "ordering relations (monotonicity, BER<=SER<=k*BER, PSK bracket) carry "
+    "a slack of 1e-13 absolute (x L for PER, x L*log2(M) for SE; 1e-15 for "
+    "the [0,1] range) + 1e-9 relative",
     "SNR is Es/N0 relative to the nominal unit mean symbol energy (N0 = "
     "1/snr, the noise variance every simulator of the library uses), so a "
     "rescaled constellation changes the implied SER",
